@@ -36,19 +36,19 @@ func (o *TObj) set(k string, v TVal) {
 }
 
 type Tables struct {
-	Globals   map[string]*TObj  // table global -> object
-	EnumName  map[int64]string  // OperatorType value -> constant name
-	EnumVal   map[string]int64  // constant name -> value
-	Problems  []string          // anything that made a table unresolved
-	SetCalls  int               // number of Set calls interpreted
-	Objects   int
+	Globals    map[string]*TObj // table global -> object
+	EnumName   map[int64]string // OperatorType value -> constant name
+	EnumVal    map[string]int64 // constant name -> value
+	Problems   []string         // anything that made a table unresolved
+	SetCalls   int              // number of Set calls interpreted
+	Objects    int
 	StringSets map[string][]string // string-slice globals (e.g. TopLevelSearchOperators)
-	nextID    int
+	nextID     int
 }
 
 type tableInterp struct {
-	c   *Ctx
-	t   *Tables
+	c        *Ctx
+	t        *Tables
 	mergeFns map[*ssa.Function]bool
 }
 
